@@ -849,20 +849,46 @@ def flow_set(obs):
     return out
 
 
-def union_verdict(entries, multi_flows, single_flows):
-    """metamorphic oracle (needs no model): the flows of one run with entries {e1..ek} are exactly the union of the
-    flows of the k runs with one entry each — selected entries are analysed independently of each other"""
+def summarize(obs):
+    """what the union oracle compares: flow set, selected ids, per-entry P3 artefacts"""
+    p3 = obs.get("p3", {})
+    return {"flows": sorted(list(x) for x in flow_set(obs)), "sel": obs.get("entry_file") or [],
+            "space_rows": dict(p3.get("space_rows", {})), "call_paths": dict(p3.get("call_paths", {}))}
+
+
+def union_verdict(entries, joint, singles):
+    """metamorphic oracle (needs no model): selected entries are analysed independently of each other, so
+    (1) the flows of one run with entries {e1..ek} are exactly the union of the flows of the k single-entry runs;
+    (2) what P3 stores under the id of entry e in the joint run (size of its state space, call paths starting at e)
+        is what it stores in the run where e is the only entry.
+    joint / singles[e] = summarize(observation)"""
+    why = []
+    jf = {tuple(x) for x in joint["flows"]}
     union = set()
     for e in entries:
-        union |= single_flows[e]
-    if multi_flows == union:
-        return []
-    return [f"per-entry independence broken: the run with entries {list(entries)} reports {len(multi_flows)} flows, the union of the "
-            f"{len(entries)} single-entry runs has {len(union)}; missing in the joint run {sorted(union - multi_flows)}, "
-            f"extra in the joint run {sorted(multi_flows - union)} (flow = [source file, source line, sink file, sink line])"]
+        union |= {tuple(x) for x in singles[e]["flows"]}
+    if jf != union:
+        why.append(f"per-entry independence broken: the run with entries {list(entries)} reports {len(jf)} flows, the union of the "
+                   f"{len(entries)} single-entry runs has {len(union)}; missing in the joint run {sorted(union - jf)}, "
+                   f"extra in the joint run {sorted(jf - union)} (flow = [source file, source line, sink file, sink line])")
+    for e in entries:
+        for mid in singles[e]["sel"]:
+            k = str(mid)
+            a, b = joint["space_rows"].get(k), singles[e]["space_rows"].get(k)
+            if a != b:
+                why.append(f"entry {e} (id {mid}): its state space stored by the joint run has {a} rows, by the single-entry run {b}"
+                           + (" — nothing is stored under its id in the joint run" if a is None else ""))
+            a, b = joint["call_paths"].get(k, []), singles[e]["call_paths"].get(k, [])
+            if a != b:
+                why.append(f"entry {e} (id {mid}): call paths starting at it differ: joint run {a}, single-entry run {b}")
+    return why
 
 
-def shrink_union(payload, single_flows, root, req, budget=8):
+def union_ruleset(rng, proj, entries, multi):
+    return chain_ruleset(rng, entries, multi)
+
+
+def shrink_union(payload, singles, root, req, budget=8):
     """drop entries from the joint run while the union oracle still fails (single-entry results are reused)"""
     entries = list(payload["entries"])
     why = None
@@ -879,7 +905,7 @@ def shrink_union(payload, single_flows, root, req, budget=8):
             o = full_run(job)
             if "error" in o:
                 continue
-            w = union_verdict(rest, flow_set(o), single_flows)
+            w = union_verdict(rest, summarize(o), singles)
             if w:
                 entries, why, changed = rest, w, True
                 break
@@ -896,7 +922,60 @@ def replay_union(rp, root, req):
     errs = [o["error"] for o in obs if "error" in o]
     if errs:
         return ["lian run failed: " + errs[0]], obs
-    return union_verdict(entries, flow_set(obs[0]), {e: flow_set(o) for e, o in zip(entries, obs[1:])}), obs
+    why = union_verdict(entries, summarize(obs[0]), {e: summarize(o) for e, o in zip(entries, obs[1:])})
+    w0, _s, _st = full_verdict(jobs[0], obs[0], req)
+    return why + w0, obs
+
+
+def gen_overlap_project(rng, full=False):
+    """Python project whose selectable functions CALL EACH OTHER: a chain e1 -> e2 -> e3, two mutually recursive
+    functions ra <-> rb, and top-level code (%unit_init) that calls e1.  Every function has its own `tp -> sink(tp)`
+    flow, so each is a meaningful entry whether or not another selected entry reaches it.
+    proj["overlap"]["entries"] = the names to select together (always overlapping: some selected entry calls another)."""
+    rel = rng.choice(["ov.py", "svc/ov.py"])
+    lines, funcs = [], []
+
+    def emit(t):
+        lines.append(t)
+        return len(lines)
+
+    def fn(name, calls, guard=False):
+        f = {"name": name, "kind": "func", "calls": list(calls)}
+        f["lines"] = [emit(f"def {name}(tp):")]
+        f["sink"] = emit("    sink(tp)")
+        for c in calls:
+            if guard:
+                emit("    if tp:")
+                emit(f"        r = {c}(tp)")
+            else:
+                emit(f"    r = {c}(tp)")
+        emit("    return 1")
+        emit("")
+        funcs.append(f)
+    depth = 3 if full else rng.choice([2, 3])
+    chain = [f"e{i}" for i in range(1, depth + 1)]
+    for i in range(depth, 0, -1):                 # callee first
+        fn(f"e{i}", [f"e{i + 1}"] if i < depth else [])
+    rec = full or rng.random() < 0.6
+    if rec:
+        fn("ra", ["rb"], guard=True)
+        fn("rb", ["ra"])
+    top = full or rng.random() < 0.6
+    if top:
+        init = {"name": "%unit_init", "kind": "init", "calls": ["e1"], "lines": []}
+        emit("tv = req.get()")
+        init["sink"] = emit("sink(tv)")
+        emit("q = e1(tv)")
+        funcs.append(init)
+    cands = chain + (["ra", "rb"] if rec else []) + (["%unit_init"] if top else [])
+    if full:
+        entries = cands
+    else:
+        entries = list(chain)                     # the chain is always selected as a whole (overlap guaranteed)
+        entries += [c for c in cands if c not in chain and rng.random() < 0.7]
+    proj = {"files": {rel: "\n".join(lines) + "\n"}, "funcs": {rel: funcs}, "toplevel": {rel: top},
+            "recursive": rec, "overlap": {"entries": entries}}
+    return proj
 
 
 def gen_ruleset(rng, proj, ids=None):
@@ -1018,7 +1097,7 @@ def full_run(job):
     env["PYTHONPATH"] = os.path.join(common.REPO, "src")
     env["PYTHONHASHSEED"] = "0"
     langs = "python,javascript" if any(r.endswith(".js") for r in job["proj"]["files"]) else "python"
-    cmd = ["/venv/bin/python", os.path.join(common.REPO, "src", "lian", "main.py"), "run", "-l", langs,
+    cmd = ["/venv/bin/python", os.path.join(os.path.dirname(os.path.abspath(__file__)), "c20_runner.py"), "run", "-l", langs,
            "-w", "ws", "-f", "--default-settings", "settings", "proj"]
     t = time.time()
     try:
@@ -1068,6 +1147,33 @@ def full_run(job):
         obs["stdout_tail"] = p.stdout[-1500:]
         return obs
     obs["roots"], obs["analysed"] = parse_roots(p.stdout)
+    obs["wrap"] = "ok" if "LV-ROOT-WRAP ok" in p.stdout else "unavailable"
+    obs["lv_roots"] = [int(x) for x in re.findall(r"^LV-ROOT (-?\d+)$", p.stdout, flags=re.M)]
+    # per-entry artefacts of P3: ids under which a state space / a state-flow graph was stored, size of each entry's
+    # state space, call paths starting at each entry
+    p3 = {"space_ids": [], "sfg_ids": [], "space_rows": {}, "call_paths": {}}
+    try:
+        d3 = os.path.join(wsd, "semantic_p3")
+        for key, fn in (("space_ids", "s2space_p3.indexing"), ("sfg_ids", "state_flow_graph_p3.indexing")):
+            f3 = os.path.join(d3, fn)
+            if os.path.exists(f3):
+                p3[key] = sorted(int(x) for x in pd.read_feather(f3)["item_id"])
+        for fn in sorted(os.listdir(d3)) if os.path.isdir(d3) else []:
+            if re.match(r"s2space_p3\.bundle\d+$", fn):
+                for mid, n in pd.read_feather(os.path.join(d3, fn))["method_id"].value_counts().items():
+                    p3["space_rows"][str(int(mid))] = p3["space_rows"].get(str(int(mid)), 0) + int(n)
+        f3 = os.path.join(d3, "call_paths_p3")
+        if os.path.exists(f3):
+            for r in pd.read_feather(f3).to_dict("records"):
+                path = [[int(x) for x in site] for site in r["call_path"]]
+                if path:
+                    p3["call_paths"].setdefault(str(path[0][0]), []).append(path)
+            for k in p3["call_paths"]:
+                p3["call_paths"][k].sort()
+    except Exception as e:
+        p3["error"] = f"{type(e).__name__}: {e}"
+    obs["p3"] = p3
+    obs["starts"] = obs["lv_roots"] if (obs["wrap"] == "ok" and obs["lv_roots"]) else obs["roots"]
     tf = os.path.join(wsd, "taint", "taint_data_flow.json")
     obs["flows"] = []
     if os.path.exists(tf):
@@ -1106,10 +1212,29 @@ def full_verdict(job, obs, req):
     got = obs["entry_file"] or []
     if got != expect:
         why.append(f"semantic_p1/entry_points holds {got}, the rules select {expect}")
-    if sorted(obs["roots"]) != sorted(set(obs["roots"])):
-        why.append(f"a method is used as analysis start more than once: roots {obs['roots']}")
-    if sorted(set(obs["roots"])) != expect:
-        why.append(f"root 'Analyzing' lines {sorted(set(obs['roots']))} != selected set {expect}")
+    if not proj.get("recursive"):      # the console text cannot tell a recursive inner frame from a new root
+        if sorted(obs["roots"]) != sorted(set(obs["roots"])):
+            why.append(f"a method is used as analysis start more than once: roots {obs['roots']}")
+        if sorted(set(obs["roots"])) != expect:
+            why.append(f"root 'Analyzing' lines {sorted(set(obs['roots']))} != selected set {expect}")
+    # starts observed independently of the console text: (1) root frames created (harness-side wrap of
+    # P3.init_frame_stack), (2) the ids under which P3 stored a state space and a state-flow graph
+    if obs.get("wrap") == "ok" and (obs["lv_roots"] or not expect):
+        if sorted(obs["lv_roots"]) != expect:
+            why.append(f"root frames created by P3 for {sorted(obs['lv_roots'])}, the selected set is {expect}: "
+                       f"never a start {sorted(set(expect) - set(obs['lv_roots']))}, start without being selected "
+                       f"{sorted(set(obs['lv_roots']) - set(expect))}, started more than once "
+                       f"{sorted({x for x in obs['lv_roots'] if obs['lv_roots'].count(x) > 1})}")
+    elif expect:
+        soft.append("root-frame wrap unavailable or silent (P3.init_frame_stack renamed?): starts judged by artefacts and console only")
+    p3 = obs.get("p3", {})
+    if "error" in p3:
+        soft.append("cannot read P3 artefacts: " + p3["error"])
+    else:
+        for key, what in (("space_ids", "semantic_p3/s2space_p3"), ("sfg_ids", "semantic_p3/state_flow_graph_p3")):
+            if p3.get(key, []) != expect:
+                why.append(f"{what} holds a record for entries {p3.get(key, [])}, the selected set is {expect} "
+                           f"(selected but nothing stored under its id: {sorted(set(expect) - set(p3.get(key, [])))})")
     # --- unit initialiser exists iff the file has top-level non-declaration code (generator knowledge)
     rel_of = {}
     for u in units:
@@ -1185,7 +1310,7 @@ def full_verdict(job, obs, req):
     return why, soft, stats
 
 
-def shrink_full(payload, why, root, req, budget=14):
+def shrink_full(payload, why, root, req, budget=18):
     """greedy shrinking of a failing end-to-end input: drop project files, rule files and single rules while the
     monitors still fail (each attempt is one lian run, so the number of attempts is bounded)"""
     cur = json.loads(json.dumps(payload))
@@ -1203,6 +1328,10 @@ def shrink_full(payload, why, root, req, budget=14):
             c = json.loads(json.dumps(cur)); del c["ruleset"]["files"][i]; cands.append(c)
             for j in range(len(data or [])):
                 c = json.loads(json.dumps(cur)); del c["ruleset"]["files"][i][1][j]; cands.append(c)
+                ml = (data[j] or {}).get("method_list")
+                if isinstance(ml, list) and len(ml) > 1:
+                    for q in range(len(ml)):
+                        c = json.loads(json.dumps(cur)); del c["ruleset"]["files"][i][1][j]["method_list"][q]; cands.append(c)
         for c in cands:
             if budget <= 0:
                 break
@@ -1367,9 +1496,11 @@ def run(ctx):
             for _ in range(per_proj):
                 jobs.append({"proj": pr, "ruleset": gen_ruleset(ctx.rng, pr), "pi": pi})
         n_chain = 1 if tier == "quick" else 16
+        n_overlap = 1 if tier == "quick" else 12
         chains = [gen_chain_project(ctx.rng, k=4 if tier == "quick" else None) for _ in range(n_chain)]
+        chains += [gen_overlap_project(ctx.rng, full=(tier == "quick" or i == 0)) for i in range(n_overlap)]
         for ui, cp in enumerate(chains):
-            ents = cp["chain"]["entries"]
+            ents = (cp.get("chain") or cp["overlap"])["entries"]
             jobs.append({"proj": cp, "ruleset": chain_ruleset(ctx.rng, ents, True), "union": ui, "entry": None})
             for e in ents:
                 jobs.append({"proj": cp, "ruleset": chain_ruleset(ctx.rng, [e], False), "union": ui, "entry": e})
@@ -1419,33 +1550,34 @@ def run(ctx):
             full_reqs.append(full_model_check(j, o, req))
             full_obs.append((j, o))
         # ---- metamorphic union oracle on the chain projects
-        ustats = {"projects": len(chains), "entries": 0, "joint_flows": 0, "chain_flows_expected": 0, "chain_flows_seen": 0,
-                  "violations": 0}
+        ustats = {"projects": len(chains), "overlap_projects": sum(1 for c in chains if "overlap" in c), "entries": 0,
+                  "joint_flows": 0, "chain_flows_expected": 0, "chain_flows_seen": 0, "artefacts_compared": 0, "violations": 0}
         for ui, cp in enumerate(chains):
             grp = [(j, o) for j, o in zip(jobs, obs1) if j.get("union") == ui]
             if any("error" in o for _j, o in grp):
                 continue                      # already reported by full_verdict
-            multi = next(o for j, o in grp if j["entry"] is None)
-            singles = {j["entry"]: flow_set(o) for j, o in grp if j["entry"] is not None}
-            ents = cp["chain"]["entries"]
-            mf = flow_set(multi)
+            joint = summarize(next(o for j, o in grp if j["entry"] is None))
+            singles = {j["entry"]: summarize(o) for j, o in grp if j["entry"] is not None}
+            ents = (cp.get("chain") or cp["overlap"])["entries"]
+            mf = {tuple(x) for x in joint["flows"]}
             ustats["entries"] += len(ents)
             ustats["joint_flows"] += len(mf)
-            ustats["chain_flows_expected"] += len(ents)
-            ustats["chain_flows_seen"] += sum(1 for e in ents if tuple(cp["chain"]["expected"][e]) in mf)
-            w = union_verdict(ents, mf, singles)
+            ustats["artefacts_compared"] += sum(len(v["sel"]) for v in singles.values())
+            if "chain" in cp:
+                ustats["chain_flows_expected"] += len(ents)
+                ustats["chain_flows_seen"] += sum(1 for e in ents if tuple(cp["chain"]["expected"][e]) in mf)
+            w = union_verdict(ents, joint, singles)
             if w:
                 ustats["violations"] += 1
-                failing.append(("union", {"proj": cp, "entries": ents,
-                                          "single_flows": {e: sorted(v) for e, v in singles.items()}}, w))
+                failing.append(("union", {"proj": cp, "entries": ents, "singles": singles}, w))
         ctx.cov["union_oracle"] = ustats
         full_replies = model_batch(full_reqs) if full_reqs else None
         if full_replies:
             for (j, o), rep in zip(full_obs, full_replies):
                 got = o["entry_file"] or []
-                if sorted(rep["runp1"]) != got or sorted(rep["roots"]) != sorted(o["roots"]):
+                if sorted(rep["runp1"]) != got or sorted(rep["roots"]) != sorted(o["starts"]):
                     corr_breaks.append({"layer": "full-run", "model": "LianVerif.EntryPoints.runP1 / p3Roots",
-                                        "real": {"entry_file": got, "roots": o["roots"]},
+                                        "real": {"entry_file": got, "roots": o["starts"]},
                                         "model_out": {"runp1": rep["runp1"], "roots": rep["roots"]},
                                         "ruleset": j["ruleset"], "units": o["units"]})
         times["full_runs"] = round(time.time() - t_ph, 1)
@@ -1461,7 +1593,7 @@ def run(ctx):
             "None/NaN names) through the real P1.run loop; full runs: generated Python projects (2-6 files, nested dirs, classes, "
             "nested functions, with/without top-level code, cookiecutter dir, empty file) x rule families "
             "(empty, no file, initialiser only, names, lang, lang miss, unit_name exact/substring, unit_path, overlap, attrs, all, "
-            "args, multi-file with decoys, string method_list, workspace prefix; second wave: method_id / unit_id from a first run); chain projects (3-6 entries sharing helper chains of depth 2-3, source in the entry and sink in the leaf or the reverse) run jointly and once per entry for the union oracle; "
+            "args, multi-file with decoys, string method_list, workspace prefix; second wave: method_id / unit_id from a first run); chain projects (3-6 entries sharing helper chains of depth 2-3, source in the entry and sink in the leaf or the reverse) and overlap projects (selected entries call each other: chain e1->e2->e3, mutual recursion ra<->rb, %unit_init calling e1) run jointly and once per entry for the union oracle (flows and per-entry P3 artefacts); "
             "non-trivial = distinct input whose selected set is a non-empty proper subset of the method scopes")
         ctx.cov["exhaustive"] = False
         ctx.cov["correspondence"] = {"differences": len(corr_breaks)}
@@ -1491,15 +1623,15 @@ def run(ctx):
                     ctx.violation({"kind": "inproc", "what": "; ".join(why), "case": jsonable(small), "real": o, "oracle": orc,
                                    "failing_inputs_in_run": len(failing)})
             elif kind == "union":
-                singles = {e: {tuple(x) for x in v} for e, v in payload["single_flows"].items()}
+                singles = payload["singles"]
                 ents, w2 = shrink_union(payload, singles, root, req)
                 why = w2 or why
                 fid = match_known(ctx, kind, payload, why)
                 if fid:
                     ctx.known(fid, "; ".join(why)[:300])
                 else:
-                    ctx.violation({"kind": "union", "what": "; ".join(why)[:2000], "proj": payload["proj"], "entries": ents,
-                                   "single_flows": {e: sorted(singles[e]) for e in ents},
+                    ctx.violation({"kind": "union", "what": "; ".join(why)[:2500], "proj": payload["proj"], "entries": ents,
+                                   "single_runs": {e: singles[e] for e in ents},
                                    "failing_inputs_in_run": len(failing)})
             elif kind == "default":
                 sdir = os.path.join(common.REPO, "default_settings")
@@ -1555,7 +1687,8 @@ def replay(rp):
             return 1 if why else 0
         if rp.get("kind") == "union":
             why, obs = replay_union(rp, root, req)
-            print(json.dumps({"joint_flows": sorted(flow_set(obs[0])), "violates": bool(why), "why": why}, default=str))
+            print(json.dumps({"joint_flows": sorted(flow_set(obs[0])), "starts": obs[0].get("starts"),
+                              "violates": bool(why), "why": why}, default=str))
             return 1 if why else 0
         if rp.get("kind") == "full":
             job = {"proj": rp["proj"], "ruleset": rp["ruleset"], "dir": os.path.join(root, "rp")}
